@@ -35,10 +35,10 @@ use crate::{
 };
 use super::{discovery_rig, rig};
 
-const CA_CERT: &str = include_str!("/repo/examples/security_configuration_files/permissions_ca.cert.pem");
+pub(super) const CA_CERT: &str = include_str!("/repo/examples/security_configuration_files/permissions_ca.cert.pem");
 const CA_KEY: &str = include_str!("/repo/examples/security_configuration_files/permissions_ca_private_key.pem");
 const ID_CERT: &str = include_str!("/repo/examples/security_configuration_files/cert.pem");
-const ME: &str = "CN=participant1_common_name,O=Example Organization";
+pub(super) const ME: &str = "CN=participant1_common_name,O=Example Organization";
 const SOMEBODY_ELSE: &str = "CN=participant2_common_name,O=Example Organization";
 
 pub fn property() -> Property {
@@ -89,12 +89,12 @@ pub fn property() -> Property {
 
 // ---------------------------------------------------------------- signing
 
-struct Signer {
+pub(super) struct Signer {
   cert: X509,
   key: PKey<Private>,
 }
 
-fn shipped_ca() -> Signer {
+pub(super) fn shipped_ca() -> Signer {
   Signer {
     cert: X509::from_pem(CA_CERT.as_bytes()).expect("C18: shipped permissions CA certificate"),
     key: PKey::private_key_from_pem_passphrase(CA_KEY.as_bytes(), b"password123").expect("C18: shipped permissions CA key"),
@@ -121,7 +121,7 @@ fn foreign_ca() -> Signer {
   Signer { cert: b.build(), key }
 }
 
-fn sign(s: &Signer, content: &str) -> Vec<u8> {
+pub(super) fn sign(s: &Signer, content: &str) -> Vec<u8> {
   let flags = Pkcs7Flags::TEXT | Pkcs7Flags::DETACHED;
   let certs = Stack::new().expect("stack");
   let p7 = Pkcs7::sign(&s.cert, &s.key, &certs, content.as_bytes(), flags).expect("C18: PKCS7 sign");
@@ -353,7 +353,7 @@ fn governance_xml(rules: &[DomainRule]) -> String {
   s
 }
 
-fn qos(governance: &[u8], permissions: &[u8], ca_pem: &str) -> QosPolicies {
+pub(super) fn qos(governance: &[u8], permissions: &[u8], ca_pem: &str) -> QosPolicies {
   let p = |name: &str, value: String| SecProperty {
     name: name.to_string(),
     value,
